@@ -188,6 +188,10 @@ def cases(tier, seed):
                 out.append({"problem": problem, "prog": prog, "mesh": "base", "ground": GROUNDS[problem][0], "orphan": False, "resol": "elim", "mode": mode,
                             "krylov": "cg", "homog": True})
     out.append({"kind": "solver_set"})
+    # conditions entered in stages on one live simulation holding Lagrange conditions / connections
+    for problem in ("elastic", "thermal", "beam"):
+        for resol in [r for r in RESOLS[problem] if r != "elim"]:
+            out.append({"kind": "resolve", "problem": problem, "resol": resol})
     # caller-owned value arrays used for two load cases of one simulation and for a twin
     for problem in ("elastic", "thermal", "beam"):
         for form in REUSE_FORMS:
@@ -838,7 +842,65 @@ def _run_reuse(case):
             "outcome": "violation" if v else "ok"}
 
 
+# ------------------------------------------------------------------------------------------------
+# kind "resolve": conditions entered in stages on ONE live simulation that holds Lagrange conditions
+# ------------------------------------------------------------------------------------------------
+RESOLVE_STAGES = [["dAc"], ["dAc", "nC"], ["dAc", "nC", "dBf"]]
+
+
+def _run_resolve(case):
+    """Solve, enter one more condition, solve again (and once more), then clear everything and start over without multipliers: after every
+    stage the live simulation returns the solution of a fresh simulation given the same conditions at once."""
+    problem, resol = case["problem"], case["resol"]
+    spec = make_spec({"problem": problem, "orphan": False, "resol": resol})
+    key = dict(kind="resolve", problem=problem, resol=resol)
+    v, ntr, obs = [], 0, []
+
+    def conditions(simu, pt, atoms, with_lagrange):
+        apply_program(simu, pt, spec, ["G"] + atoms)
+        if with_lagrange:
+            # multiplier conditions between dofs no Dirichlet atom touches, with a non-zero right-hand side (active multipliers)
+            ls = lagrange_specs(spec, resol, np.zeros(spec.coords.shape[0] * spec.dof_n))
+            add_lagrange(simu, pt, spec, resol, ls)
+
+    live, pt = build_simu(spec, "linear")
+    history = [(atoms, True) for atoms in RESOLVE_STAGES] + [(RESOLVE_STAGES[1], False), (RESOLVE_STAGES[2], True)]
+    entered = None
+    for k, (atoms, lag) in enumerate(history):
+        stage = f"{k}:{'+'.join(atoms)}{'+L' if lag else ''}"
+        try:
+            if entered is not None and lag and entered[1] and atoms[: len(entered[0])] == entered[0]:
+                # one more condition on top of what is there
+                apply_program(live, pt, spec, atoms[len(entered[0]):])
+            else:
+                live.Bc_Init()
+                conditions(live, pt, atoms, lag)
+            entered = (atoms, lag)
+            u, err, _ = solve_impl(live, pt, spec)
+        except Exception as e:
+            u, err = None, f"{type(e).__name__}: {str(e)[:160]}"
+        ntr += 2
+        twin, pt2 = build_simu(spec, "linear")
+        conditions(twin, pt2, atoms, lag)
+        uref, err2, _ = solve_impl(twin, pt2, spec)
+        ntr += 2
+        if err2 or uref is None or not np.all(np.isfinite(uref)):
+            continue  # the stage is not solvable by itself: nothing is promised
+        obs.append(uref)
+        if err:
+            v.append(viol("solve_raised", f"{problem}/{resol}: stage {stage} on the live simulation: {err} (a fresh simulation with the same conditions solves)", stage=stage, **key))
+            break
+        e = np.abs(u - uref).max() / max(np.abs(uref).max(), 1e-300)
+        if not np.all(np.isfinite(u)) or e > 1e-9:
+            v.append(viol("resolve_solution", f"{problem}/{resol}: stage {stage}: the live simulation returns a solution that differs from a fresh simulation with the same conditions by {e:.3e}",
+                          stage=stage, **key))
+            break
+    return {"violations": v, "fingerprint": fp("resolve", problem, resol, *obs), "nontrivial": len(obs) >= 3, "transitions": ntr, "outcome": "violation" if v else "ok"}
+
+
 def run_case(case):
+    if case.get("kind") == "resolve":
+        return _run_resolve(case)
     if case.get("kind") == "reuse":
         return _run_reuse(case)
     if case.get("kind") == "solver_set":
